@@ -3,6 +3,7 @@ package main
 import (
 	"fmt"
 	"go/token"
+	"go/types"
 	"sort"
 	"strings"
 
@@ -99,6 +100,87 @@ func ruleU5(p *Prog) *RuleResult {
 					res.bad(c, p.ipos(call), fmt.Sprintf("the key argument was shifted already at %s and %s shifts it again: the chunk key falls out of the word and the result keeps only the low part", p.ipos(sh), fname(g)))
 				} else {
 					res.ok(c, p.ipos(call), "key argument is an unshifted key")
+				}
+			}
+		}
+	}
+	// the same confusion in comparisons: a field that only ever holds a chunk base (key << 16: the iterators'
+	// hs) is compared with a bare key (a widened 16-bit value, the result of highbits) — the two are on
+	// different scales and the comparison is decided by the scale, not by the values
+	baseField := map[string]int{} // field -> 1 all stores shifted, -1 some store not shifted
+	for _, f := range fns {
+		if f.Blocks == nil {
+			continue
+		}
+		for _, b := range f.Blocks {
+			for _, ins := range b.Instrs {
+				st, ok := ins.(*ssa.Store)
+				if !ok {
+					continue
+				}
+				fa, ok := st.Addr.(*ssa.FieldAddr)
+				if !ok {
+					continue
+				}
+				bt, ok := st.Val.Type().Underlying().(*types.Basic)
+				if !ok || (bt.Kind() != types.Uint32 && bt.Kind() != types.Uint64) {
+					continue
+				}
+				name := fieldName(fa.X.Type(), fa.Field)
+				if sh, ok := stripConv(st.Val).(*ssa.BinOp); ok && sh.Op == token.SHL {
+					if k, isC := constIntVal(sh.Y); isC && (k == 16 || k == 32) {
+						if baseField[name] == 0 {
+							baseField[name] = 1
+						}
+						continue
+					}
+				}
+				baseField[name] = -1
+			}
+		}
+	}
+	bareKey := func(v ssa.Value) bool {
+		cv, ok := v.(*ssa.Convert)
+		if !ok {
+			return false
+		}
+		if bt, ok := cv.X.Type().Underlying().(*types.Basic); ok && bt.Kind() == types.Uint16 {
+			return true
+		}
+		return false
+	}
+	for _, f := range fns {
+		if f.Blocks == nil {
+			continue
+		}
+		n := 0
+		for _, b := range f.Blocks {
+			for _, ins := range b.Instrs {
+				cmp, ok := ins.(*ssa.BinOp)
+				if !ok {
+					continue
+				}
+				switch cmp.Op {
+				case token.LSS, token.LEQ, token.GTR, token.GEQ, token.EQL, token.NEQ:
+				default:
+					continue
+				}
+				for _, pair := range [][2]ssa.Value{{cmp.X, cmp.Y}, {cmp.Y, cmp.X}} {
+					ld, ok := pair[0].(*ssa.UnOp)
+					if !ok {
+						continue
+					}
+					fa, ok := ld.X.(*ssa.FieldAddr)
+					if !ok || baseField[fieldName(fa.X.Type(), fa.Field)] != 1 {
+						continue
+					}
+					n++
+					c := fmt.Sprintf("%s|base field compared#%d", fname(f), n)
+					if bareKey(pair[1]) {
+						res.bad(c, p.ipos(cmp), "a field that holds a chunk base (key << 16) is compared with a bare 16-bit key: the scales differ by 2^16, so for every chunk but the first the comparison no longer says what it was written to say")
+					} else {
+						res.ok(c, p.ipos(cmp), "compared with a value on the same scale")
+					}
 				}
 			}
 		}
